@@ -686,6 +686,8 @@ def ob_second_opinion(pid, D, label="E2"):
             if txt in seen:
                 continue
             seen.add(txt)
+            if len(files) >= 800:                 # stated cap: the first 800 distinct queries of the run
+                break
             f = os.path.join(d, "q%04d.smt2" % i)
             open(f, "w").write("; " + n.replace("\n", " ") + "\n" + txt)
             files.append((n, r, f))
@@ -721,4 +723,4 @@ def ob_second_opinion(pid, D, label="E2"):
                     samples=[{"second_solver": nm, "agree": agree[nm], "no_answer": silent[nm]} for (nm, _) in solvers])
     return vf.FN("%s second opinion: every regex query of this run decided again by z3 4.8.12 and cvc5 1.4.0 from portable SMT-LIB2" % label, fn,
                  engine="/usr/bin/z3 4.8.12 (binary) and cvc5 1.4.0 (wheel, lib/cvc5run.py) on SMT-LIB2 printed by rx.to_smt (QF_S, one string variable, re.comp/re.inter)",
-                 encodes=ENC_LEX, symbolic="as the queries re-decided", bound="per query: 20 s (z3 4.8.12), 10 s (cvc5); an unanswered query is counted, not a failure")
+                 encodes=ENC_LEX, symbolic="as the queries re-decided", bound="the first 800 distinct queries of the run; per query: 20 s (z3 4.8.12), 10 s (cvc5); an unanswered query is counted, not a failure")
